@@ -663,6 +663,11 @@ func ReadFunction(env *Zlisp, name string, args []Sexp) (sx Sexp, err error) {
 		return SexpNull, WrongType
 	}
 	env.parser.ResetAddNewInput(bytes.NewBuffer([]byte(str)))
+	// the string is a complete text: terminate it, as LoadStream does,
+	// so that a final atom is delivered ((read "1") read nothing), and
+	// reading nothing is the nil value, not a Go nil.
+	env.parser.NewInput(bytes.NewBuffer([]byte("\n")))
+	sx = SexpNull
 	//exp, err := env.parser.ParseExpression(0)
 	// have to use the iter interface...once.
 	for reply := range env.parser.ParsingIter() {
